@@ -73,7 +73,10 @@ def run(chk):
                 total_mismatch.append({'ty': ty, 'value': str(v), 'model': a, 'impl': b})
                 # search: does the implementation violate the property on this value?
                 ok = spec_ok(ty, v)
-                fields = dict(f.split(':', 1) for f in b.split('|'))
+                if 'T:' not in b:          # the harness call itself died (panic / abort inside the library)
+                    chk.violation(f'{ty}-{v}', total_mismatch[-1], f'{ty.upper()}: the library call panicked or aborted on {v}: {b[:200]}')
+                    continue
+                fields = dict(f.split(':', 1) for f in b.split('|') if ':' in f)
                 bad = None
                 if (fields['T'] != '-') != ok:
                     bad = f'{ty.upper()}::try_from({v}) is {"accepted" if fields["T"] != "-" else "rejected"}; the safe range says {"accept" if ok else "reject"}'
